@@ -86,7 +86,8 @@ def main() -> int:
             return any(v["rule"] == rule and v["sig"] == sig for v in r["violations"])
 
         small, n = (scn, 0)
-        if k is None or len(groups) <= 12:
+        shrunk_groups = sum(1 for _ in ())
+        if (k is None and unlisted < 8) or (k is not None and len(groups) <= 12):
             small, n = shrink.shrink(scn, still, cap=getattr(prop, "SHRINK_CAP", 400))
         r = prop.execute(small)
         hit = [v for v in r["violations"] if v["rule"] == rule and v["sig"] == sig]
